@@ -8,10 +8,11 @@ observation per event, plus the oracle table for R.
 import errno
 import pickle as _pickle
 import socket
+import os
 import sys
 import zlib as _zlib
 
-REPO = '/repo'
+REPO = os.environ.get('VERIF_REPO', '/repo')
 if REPO not in sys.path:
     sys.path.insert(0, REPO)
 
